@@ -231,17 +231,17 @@ func properties() map[string]*Property {
 	}
 	c20fns := concat(pureFns, numFns, []string{"growBytesSliceCapacity", "unescapeUnicodeChar", "errUnexpectedByteInString",
 		"skipValue", "skipValueFast", "handleArrayValues", "handleObjectValues", "SkipValue", "SkipValueFast", "HandleArrayValues", "HandleObjectValues",
-		"appendRemainderOfString", "unescapeStringContent", "ReadStringBytes", "rjson.(*ValueReader).ReadObject", "rjson.(*ValueReader).ReadArray"})
+		"appendRemainderOfString", "ReadStringBytes", "rjson.(*ValueReader).ReadObject", "rjson.(*ValueReader).ReadArray"})
 	ps["C20"] = &Property{ID: "C20", Level: "proof",
 		Jobs:   allocJobs(c20fns...),
-		Kinds:  map[string]bool{"ensures": true, "inv-init": true, "inv-preserved": true, "requires@call": true},
+		Kinds:  map[string]bool{"ensures": true, "inv-init": true, "inv-preserved": true, "requires@call": true, "alloc-bound": true},
 		Labels: []string{"C20"},
 		Assume: []string{
 			"A-growth (Go runtime growslice, assumed): on reallocation the new capacity is at most 2*needed+32 elements, at least 1.25x the old capacity, and at least 2x while the old capacity is below 256 elements",
 			"M-sum (not machine-checked): per-call bounds of the form `bytes requested <= K*consumed + K0` add up to a bound linear in the total input because the calls of a traversal consume disjoint byte ranges; allocations made by handlers (user code, or the nested ValueReader calls, each of which has its own per-call obligation) are not counted in the caller",
 			"maps: make(map, hint) is charged 48*hint bytes; the []interface{} appends of the ValueReader are not modelled",
 		},
-		Subset: "per-call resource contracts on the ghost allocation counter: the four stack machines request at most 256*p+4096 bytes (amortised through the potential 64*(cap-cap0)+8*(len-len0)), scalar readers and Decode functions a constant, string functions a bound in the destination size and the bytes consumed. Three sites violate their bound on the pinned tree and are recorded as known findings F2, F3, F4 (replayed on the real code: /verif/findings/c20_findings_test.go)",
+		Subset: "per-call resource contracts on the ghost allocation counter: in the four stack machines every allocation event (the temporary make and the append growth of the stack) requests at most 16*p+1024 bytes where p is the position reached (per event; that the events of one call add up to a linear total is the geometric-growth argument M-amort, not machine-checked), scalar readers and Decode functions a constant, string functions a bound in the destination size and the bytes consumed. Three sites violate their bound on the pinned tree and are recorded as known findings F2, F3, F4 (replayed on the real code: /verif/findings/c20_findings_test.go)",
 	}
 	ps["C14"] = &Property{ID: "C14", Level: "proof",
 		Jobs:  relJobs("skipValue", "skipValueFast", "handleArrayValues", "handleObjectValues", "SkipValue", "SkipValueFast", "Valid", "HandleArrayValues", "HandleObjectValues"),
